@@ -250,6 +250,24 @@ int main(int argc, char** argv) {
                     fs::current_path(dir / job->at("cwd").s);
                 compiler::ModuleLoader loader(search);
                 std::unique_ptr<compiler::Program> program;
+                // "preload": earlier requests served by the same loader object (their outcome is ignored); "late_files" are
+                // written only after them, i.e. were missing while the earlier requests ran
+                if (job->has("preload")) {
+                    for (auto& pe : job->at("preload").a) {
+                        try {
+                            (void)loader.load((dir / pe->s).string());
+                        } catch (const std::exception&) {
+                        }
+                    }
+                }
+                if (job->has("late_files")) {
+                    for (auto& kv : job->at("late_files").o) {
+                        fs::path p = dir / kv.first;
+                        fs::create_directories(p.parent_path());
+                        std::ofstream f(p);
+                        f << kv.second->s;
+                    }
+                }
                 try {
                     program = loader.load((dir / entry).string());
                 } catch (...) {
